@@ -92,6 +92,10 @@ def ambiguous_positions(desc, path=()):
                     if len(b) != 16 and not (len(b) == 1 and b.decode("latin1").isalpha() and b[0] < 128):
                         if is_ambiguous_raw(b, lambda x: x is None or isinstance(x, (int, str))):
                             out.append(p)
+                        elif lenient_prefix(b)[:2] == ("ok", None):
+                            # the part *is* (or begins with) CBOR null: parse shows `null`, which no alternative of a component part can be
+                            # re-created from (SuitBchar accepts None and fails in to_cbor) - the null case of F4, canonical encoding or not
+                            out.append(p)
                 rec(v, p)
         elif isinstance(d, list):
             for i, v in enumerate(d):
